@@ -6,6 +6,7 @@ import (
 	"os"
 	"path/filepath"
 	"regexp"
+	"strings"
 )
 
 // The ledger of recorded findings (known_findings.jsonl next to bin/): used only to decide whether a divergence found
@@ -54,12 +55,18 @@ func ledgerKnown(cls string) bool {
 	if !ledgerLoaded {
 		loadLedger()
 	}
-	if ledgerClasses[cls] {
-		return true
+	alts := []string{cls}
+	if strings.HasPrefix(cls, "orefa.") {
+		alts = append(alts, "kernel."+cls[len("orefa."):])
 	}
-	for _, re := range ledgerRes {
-		if re.MatchString(cls) {
+	for _, c := range alts {
+		if ledgerClasses[c] {
 			return true
+		}
+		for _, re := range ledgerRes {
+			if re.MatchString(c) {
+				return true
+			}
 		}
 	}
 	return false
